@@ -54,7 +54,8 @@ def child_script_id(spec: dict, ref: str) -> int:
 
 
 def tmpl_str(spec: dict, st: dict, kind: str) -> str:
-    return ",".join("%d:%d:%d" % (child_script_id(spec, ch["ref"]), len(ch.get("tasks", [])), 1 if ch.get("chain") else 0)
+    return ",".join("%d:%d:%d:%d" % (child_script_id(spec, ch["ref"]), len(ch.get("tasks", [])), 1 if ch.get("chain") else 0,
+                                   1 if ch.get("ctx", {}).get("_blocking_failure") else 0)
                     for ch in st.get(kind, []))
 
 
@@ -64,7 +65,10 @@ def spec_to_oracle(spec: dict) -> str:
     for st in spec["stages"]:
         ctx = {k: v for k, v in st.get("ctx", {}).items() if k.startswith("k") and k[1:].isdigit()}
         en = st.get("enabled")
-        out.append("STAGE script=%d before=%s after=%s fail=%s reqs=%s join=%s thr=%d cof=%d fp=%d en=%s mutex=%s choice=%s maxj=%s ctx=%s tasks=%d dis=%s sor=%d conds=%s" % (
+        ms = st.get("milestone")
+        out.append("STAGE blocking=%d milestone=%s expired=%d script=%d before=%s after=%s fail=%s reqs=%s join=%s thr=%d cof=%d fp=%d en=%s mutex=%s choice=%s maxj=%s ctx=%s tasks=%d dis=%s sor=%d conds=%s" % (
+            1 if st.get("ctx", {}).get("_blocking_failure") else 0,
+            "-" if not ms else "%d:%s" % (idx.get(ms[0], 999), ms[1]), 1 if st.get("expired") else 0,
             idx[st["ref"]], tmpl_str(spec, st, "before"), tmpl_str(spec, st, "after"), tmpl_str(spec, st, "on_failure"),
             ",".join(str(idx[r]) for r in sorted(st.get("reqs", []), key=lambda r: idx[r])),
             st.get("join", "AND"), st.get("threshold", 0),
@@ -355,6 +359,15 @@ def families() -> dict[str, dict]:
                                      S("J", ["B", "C"], join="DISCRIMINATOR")]}
     f["taskless"] = {"stages": [S("A", tasks=[]), S("B", ["A"])]}
     f.update(syn_families())
+    # rarely used start conditions / completion flags
+    f["blocking_failure"] = {"stages": [S("A", tasks=[["failc"]], ctx={"_blocking_failure": True}), S("B", ["A"])]}
+    f["blocking_child"] = {"stages": [S("A", before=[S("A.b0", tasks=[["failc"]], ctx={"_blocking_failure": True})]), S("B", ["A"])]}
+    # a milestone is a time window by design: whether M starts while A is still RUNNING depends on the delivery order
+    f["milestone_ok"] = {"order_dependent": True,
+                         "stages": [S("A", tasks=[["run", "run", "ok"]]), S("M", milestone=["A", "RUNNING"]), S("C", ["A", "M"])]}
+    f["milestone_missed"] = {"stages": [S("A"), S("M", ["A"], milestone=["A", "RUNNING"]), S("C", ["M"])]}
+    f["milestone_unknown"] = {"stages": [S("A"), S("M", ["A"], milestone=["nope", "RUNNING"]), S("C", ["M"])]}
+    f["start_expired"] = {"stages": [S("A"), S("B", ["A"], expired=True), S("C", ["B"])]}
     return f
 
 
